@@ -14,6 +14,10 @@
     adjoint_final_when_popped     in a tape in construction order (no older entry, and not the entry itself,
                                   sends to the entry's key) nothing arrives at a key after its entry was
                                   popped: the popped value is the node's final adjoint
+    roundtrip_keyed_by_value_witness  where hash-consing identifies a tape node with a leaf (a renaming
+                                  back to the original names, KF-adjoint-roundtrip-identity, fixed in
+                                  /repo 2cc17fb): recording at pop time + leaves from `pending` gives 1 / 1,
+                                  the result keyed by eager value gave the leaf 0 and the node 2
     old_sweep_double_propagation  where hash-consing identifies two tape entries (same un-mangled eager
                                   value, KF-adjoint-tape-key-collision, fixed in /repo d732c46) the old sweep
                                   propagated the cumulative total at each of them: 3 instead of 2
@@ -248,6 +252,36 @@ example : AddTape collisionTape := by
   rcases he with rfl | rfl | rfl | rfl <;>
     simp only [List.mem_cons, List.not_mem_nil, or_false] at hc <;>
     (try rcases hc with rfl | rfl) <;> exact ⟨rfl, fun _ _ => rfl⟩
+
+/-! ### where hash-consing identifies a tape node with a leaf -/
+
+/-- `root(10) = outer ⊗ y`, `outer = inner(k='i')`, `inner = x(i='k')`: the eager value of `outer` is the
+    very tensor `x` (key 5), `inner` has key 4, `y` key 6 — newest first -/
+def roundTripTape : List (Entry Nat) :=
+  [⟨10, [(5, fun a => a), (6, fun a => a)]⟩, ⟨5, [(4, fun a => a)]⟩, ⟨4, [(5, fun a => a)]⟩]
+
+/-- HEAD (2cc17fb): the node `outer` is recorded with what is popped at its entry (1) and the leaf `x`
+    with what is left pending under its key (1 = the tree-shaped pass).  Keyed by eager value and
+    relabelled through `_eager_to_lazy` (before the fix) the leaf `x` had adjoint 0 and the lazy `outer`
+    the cumulative 2. -/
+theorem roundtrip_keyed_by_value_witness :
+    (result (· + ·) 0 roundTripTape [(10, 1)]).nodes = [(10, 1), (5, 1), (4, 1)] ∧
+    pendingAt (· + ·) 0 (result (· + ·) 0 roundTripTape [(10, 1)]).leaves 5 = 1 ∧
+    treeBack (· + ·) 0 roundTripTape 10 1 5 = 1 ∧
+    resultOldKeyed (· + ·) 0 roundTripTape [(10, 1)] 5 = 0 ∧
+    resultOldKeyed (· + ·) 0 roundTripTape [(10, 1)] (lazyBase + 5) = 2 := by
+  decide
+
+/-- the leaves of `result` are the tree-shaped pass, for any additive tape (restating the main theorem
+    for what `tape.adjoint` returns) -/
+theorem result_leaves_eq_tree_backward (tape : List (Entry M)) (h : AddTape tape) (root : Nat) (one : M)
+    (l : Nat) :
+    pend (result (· + ·) (0 : M) tape [(root, one)]).leaves l = tb tape root one l :=
+  tape_adjoint_eq_tree_backward tape h root one l
+
+/-- … and the node adjoints are the values popped, entry by entry: the first one is the seed -/
+theorem result_nodes_head (e : Entry M) (older : List (Entry M)) (bag : List (Nat × M)) :
+    (result (· + ·) (0 : M) (e :: older) bag).nodes.head? = some (e.key, pend bag e.key) := rfl
 
 /-! ### the concrete rules are additive (in the function they carry) on admissible messages
 
